@@ -31,6 +31,25 @@ CHECKS = {
             "bytes, with an Error note when a parser failed. Branch counters make an unreached branch inconclusive.",
             "trusts encoder, fixture plugins, the independent dump parser",
             "post-condition monitor with lossless round-trip oracle"),
+    "C05": ("fault_enumeration", "4.C05",
+            "For every seed PEL every proper prefix, every byte x 6 corruption values and structure-aware edits are decoded "
+            "by the real decoder under icontract invariants on DataStream (cursor within bounds, reads return what was "
+            "asked, cursor only moves forward) and a sys.monitoring step budget, in worker processes at optimisation level "
+            "0 and -O, plus peltool -f subprocesses (exit status, traceback, stdout shape). A prefix that yields a document "
+            "is a violation.",
+            "trusts icontract, sys.monitoring, the encoder for seeds; wall clock is only a watchdog (inconclusive)",
+            "fault enumeration under runtime contracts (icontract) + logical step budget"),
+    "C06": ("exploration", "4.C06",
+            "A wrapper rebound over peltool.prettyPrint checks every pretty-print of every path (direct hostile "
+            "documents, PEL decodes, CLI -f/-a/-l/--plid/--src/-j): parsed output == parsed input (ordered pairs) and "
+            "equality after JSON-aware whitespace removal; CLI stdout and -j files must parse.",
+            "trusts json stdlib and the small JSON-aware scanner", "runtime post-condition monitor on prettyPrint"),
+    "C07": ("exploration", "4.C07",
+            "Exhaustive: all 256 severities x 8 relevant flag combinations x 64 switch combinations x 128 group subsets "
+            "(16.7M points) of the real considerPEL are compared with a 20-line transcription of the statement by a "
+            "wrapper that also stays armed during in-process CLI runs; -n counts compared with reference counts.",
+            "trusts select_ref (vf/refmodels.py); irrelevant flag bits are sampled, not enumerated",
+            "exhaustive enumeration under a reference-model monitor on considerPEL"),
 }
 
 TECH_DEFAULT = "runtime monitoring"
